@@ -22,6 +22,10 @@ pub struct RecDest {
     pub calls: Vec<Call>,
     /// 0-based index of the call that fails (None: never)
     pub fail_at: Option<usize>,
+    /// (call index, bytes accepted, full afterwards): if that call is a write of more than `bytes`, only `bytes` are taken
+    /// (a short write); with `full afterwards` every later write that would grow the destination fails (disk full)
+    pub short_at: Option<(usize, usize, bool)>,
+    pub full: bool,
     pub ncalls: usize,
 }
 
@@ -42,6 +46,8 @@ impl RecDest {
             pre_len,
             calls: Vec::new(),
             fail_at: None,
+            short_at: None,
+            full: false,
             ncalls: 0,
         }
     }
@@ -100,7 +106,22 @@ impl RecDest {
 
 impl Write for RecDest {
     fn write(&mut self, buf: &[u8]) -> Result<usize> {
+        let k = self.ncalls;
         self.gate("write")?;
+        let mut buf = buf;
+        if let Some((at, n, full_after)) = self.short_at {
+            if at == k && buf.len() > n {
+                buf = &buf[..n];
+                self.full = full_after;
+                if n == 0 {
+                    self.calls.push(Call::Failed { what: "write (nothing accepted)" });
+                    return Ok(0);
+                }
+            } else if self.full && self.pos as usize + buf.len() > self.data.len() {
+                self.calls.push(Call::Failed { what: "write (no space left)" });
+                return Err(Error::new(ErrorKind::Other, "no space left on device (injected)"));
+            }
+        }
         let pos = self.pos as usize;
         let end = pos + buf.len();
         if self.data.len() < end {
